@@ -32,14 +32,14 @@ Record case18 := mk18 {
 (* compact event constructor used by the harness *)
 Definition op_of (n : nat) : opcode :=
   match n with
-  | 0 => OExists | 1 => OIsDir | 2 => OMkdir | 3 => OMkdirAll | 4 => OCleanedAbs
+  | 0 => OExists | 2 => OMkdir | 3 => OMkdirAll | 4 => OCleanedAbs
   | 5 => OReadFile | 6 => OWriteFile | 7 => ORemoveAll | _ => OWalk
   end.
 Definition ev (n : nat) (p : string) (ok : bool) : event := mkEv (op_of n) p ok.
 
 Definition opcode_eqb (a b : opcode) : bool :=
   match a, b with
-  | OExists, OExists | OIsDir, OIsDir | OMkdir, OMkdir | OMkdirAll, OMkdirAll
+  | OExists, OExists | OMkdir, OMkdir | OMkdirAll, OMkdirAll
   | OCleanedAbs, OCleanedAbs | OReadFile, OReadFile | OWriteFile, OWriteFile
   | ORemoveAll, ORemoveAll | OWalk, OWalk => true
   | _, _ => false
